@@ -6,6 +6,7 @@ package reader
 
 import (
 	"bytes"
+	"errors"
 	"io"
 	"os"
 	"testing"
@@ -289,7 +290,7 @@ func execC20(c *sim.Ctx, cfg c20cfg) (consumerSteps int) {
 			n, err := r.Read(p)
 			fail := con.Fail
 			switch {
-			case err == tcpreader.DataLost:
+			case errors.Is(err, tcpreader.DataLost):
 				if n != 0 {
 					fail("read", "bytes-with-error", "Read", "Read returned %d bytes together with DataLost", n)
 				}
@@ -305,7 +306,7 @@ func execC20(c *sim.Ctx, cfg c20cfg) (consumerSteps int) {
 					fail("read", "data-from-the-future", "Read", "loss reported for batch %d which has not been delivered", elems[cur].batch)
 				}
 				elems[cur].reported = true
-			case err == io.EOF:
+			case errors.Is(err, io.EOF):
 				if n != 0 {
 					fail("read", "bytes-with-error", "Read", "Read returned %d bytes together with EOF", n)
 				}
@@ -333,22 +334,30 @@ func execC20(c *sim.Ctx, cfg c20cfg) (consumerSteps int) {
 					}
 					return
 				}
-				advance(fail)
-				if cur >= len(elems) {
-					fail("read", "invented-bytes", "Read", "Read returned %d bytes after everything delivered had been read", n)
-					return
-				}
-				e := elems[cur]
-				if e.batch >= started {
-					fail("read", "data-from-the-future", "Read", "data of batch %d read before it was delivered", e.batch)
-				}
-				if loss && e.skip != 0 && !e.reported {
-					fail("loss", "gap-not-reported", "Read", "bytes of element %d (skip %d) returned before its loss was reported", cur, e.skip)
-					e.reported = true
-				}
-				if n > len(e.data)-e.off || !bytes.Equal(p[:n], e.data[e.off:e.off+n]) {
-					fail("read", "wrong-bytes", "Read", "Read(%d) returned %d bytes that are not the next delivered bytes (element %d offset %d)", size, n, cur, e.off)
-					return
+				// the n bytes are the next delivered bytes; one Read may take them
+				// from several delivered slices, but never across a gap that has
+				// not been reported (when losses are reported at all)
+				for got := 0; got < n; {
+					advance(fail)
+					if cur >= len(elems) {
+						fail("read", "invented-bytes", "Read", "Read returned %d bytes, %d of them after everything delivered had been read", n, n-got)
+						return
+					}
+					e := elems[cur]
+					if e.batch >= started {
+						fail("read", "data-from-the-future", "Read", "data of batch %d read before it was delivered", e.batch)
+					}
+					if loss && e.skip != 0 && !e.reported {
+						fail("loss", "gap-not-reported", "Read", "bytes of element %d (skip %d) returned before its loss was reported", cur, e.skip)
+						e.reported = true
+					}
+					k := min(n-got, len(e.data)-e.off)
+					if !bytes.Equal(p[got:got+k], e.data[e.off:e.off+k]) {
+						fail("read", "wrong-bytes", "Read", "Read(%d) returned %d bytes that are not the next delivered bytes (element %d offset %d)", size, n, cur, e.off)
+						return
+					}
+					e.off += k
+					got += k
 				}
 				for _, x := range p[n:] {
 					if x != 0x5A {
@@ -356,7 +365,6 @@ func execC20(c *sim.Ctx, cfg c20cfg) (consumerSteps int) {
 						break
 					}
 				}
-				e.off += n
 				readLog.Write(p[:n])
 			}
 		}
